@@ -334,6 +334,11 @@ func (c *Cluster) handleScan(req *Request) *Reply {
 		nCells += len(r.cells)
 	}
 	info := fmt.Sprintf("results=%d partials=%d cells=%d", len(results), nPartial, nCells)
+	if s.GetTrackScanMetrics() {
+		resp.ScanMetrics = &pb.ScanMetrics{Metrics: []*pb.NameInt64Pair{
+			{Name: proto.String("ROWS_SCANNED"), Value: proto.Int64(int64(len(results)))},
+			{Name: proto.String("ROWS_FILTERED"), Value: proto.Int64(0)}}}
+	}
 	if len(st.rows) == 0 && !(ch.EndRegionLater && len(results) > 0) {
 		resp.MoreResultsInRegion = proto.Bool(false)
 		why := "exhausted-region"
